@@ -24,6 +24,7 @@ import (
 	structform "github.com/elastic/go-structform"
 	"github.com/elastic/go-structform/gotype"
 	sfjson "github.com/elastic/go-structform/json"
+	"github.com/elastic/go-structform/visitors"
 
 	"verif/engines/common"
 	"verif/engines/reuse"
@@ -81,6 +82,11 @@ func render(parts []interface{}) string {
 }
 
 type panicked string
+
+// withByte completes visitors.StringConvVisitor to a structform.Visitor.
+type withByte struct{ *visitors.StringConvVisitor }
+
+func (w withByte) OnByte(b byte) error { return w.OnUint8(b) }
 
 // optionSensitive are values whose JSON encoding depends on the encoder's
 // options (HTML escaping, explicit radix point, invalid floats). Maps have one
@@ -438,13 +444,20 @@ func genOp(c *simkit.Choices, sh *shared, taskIdx int) *op {
 		doc, f, te := sh.docs[i], sh.fmts[i], sh.dtype[i]
 		reads := drawReads(c)
 		cd := common.ByName(f)
-		return &op{desc: OpDesc{Kind: "parse-unfold", Format: string(f), Type: te.Name, Doc: hex.EncodeToString(doc), Reads: reads},
+		kc := 0
+		if c.N(3) == 0 {
+			kc = 1 + c.N(5) // with a key cache of its own
+		}
+		return &op{desc: OpDesc{Kind: "parse-unfold", Format: string(f), Type: te.Name, Doc: hex.EncodeToString(doc), Reads: reads, Variant: kc},
 			run: func(yield func()) []interface{} {
 				return guard(func() []interface{} {
 					ptr, _, get := te.NewTarget()
 					u, err := gotype.NewUnfolder(ptr)
 					if err != nil {
 						return []interface{}{err}
+					}
+					if kc > 0 {
+						u.EnableKeyCache(kc)
 					}
 					_, err = cd.ParseReader(yieldingReader(doc, reads, yield), yieldingTap(u, yield))
 					return []interface{}{get(), err}
@@ -799,11 +812,19 @@ func genOp(c *simkit.Choices, sh *shared, taskIdx int) *op {
 				{Ev: simkit.Ev{K: simkit.KUint64, U: model.GenUintBig(c).U}}, {Ev: simkit.Ev{K: simkit.KUint64, U: model.GenUintBig(c).U}}}
 			ops = append(append(big, ops...), model.Op{Ev: simkit.Ev{K: simkit.KArrEnd}})
 		}
-		return &op{desc: OpDesc{Kind: "events-encode", Format: string(f), Values: len(ops), Variant: eo},
+		kind := "events-encode"
+		conv := c.N(6) == 0
+		if conv {
+			kind = "events-stringconv-encode" // through a visitors.StringConvVisitor of its own
+		}
+		return &op{desc: OpDesc{Kind: kind, Format: string(f), Values: len(ops), Variant: eo},
 			run: func(yield func()) []interface{} {
 				return guard(func() []interface{} {
 					w := yieldingWriter(yield)
 					enc := structform.EnsureExtVisitor(newEnc(f, w, eo))
+					if conv {
+						enc = structform.EnsureExtVisitor(withByte{visitors.NewStringConvVisitor(enc)})
+					}
 					for _, o := range ops {
 						if err := model.Apply(enc, o); err != nil {
 							return []interface{}{w.Buf, err}
